@@ -168,6 +168,13 @@ namespace xtl
         /// Exchange the states of *this and rhs.
         void swap(any& rhs) noexcept
         {
+            if (this == &rhs)
+            {
+                // Swapping an object with itself must be a no-op: the three moves of
+                // vtable_stack::swap would otherwise move-construct from a destroyed object.
+                return;
+            }
+
             if (this->vtable != rhs.vtable)
             {
                 any tmp(std::move(rhs));
